@@ -41,9 +41,15 @@ fn vx_estimate_wait_time(previous_count: usize, current_count: usize, limit_for_
 pub fn vx_lock<'a>(m: &'a Arc<Mutex<RateLimiterStateInner>>, clk: &Clock, Tracked(gh): Tracked<&mut AdmLog>) -> (r: &'a mut RateLimiterStateInner)
     ensures r.wf(*clk), r.wf_adm(*final(gh), *clk), r.timeout() == m.timeout@,   // the configured timeout never changes (#configuration_unchanged on every kernel operation)
 { unimplemented!() }
-pub struct Mutex<T> { pub id: Ghost<int>, pub timeout: Ghost<Duration>, pub p: core::marker::PhantomData<T> }
+pub struct Mutex<T> { pub id: Ghost<int>, pub timeout: Ghost<Duration>, pub init: Ghost<T> }
+impl Mutex<RateLimiterStateInner> {
+    /// Mutex::new: the protected value starts as `v` (init); its configured timeout is what vx_lock reports ever after
+    #[verifier::external_body]
+    pub fn new(v: RateLimiterStateInner) -> (r: Self) ensures r.init@ == v, r.timeout@ == v.timeout() { unimplemented!() }
+}
 
 // ---- types of /repo (shape-checked) ----
+#[derive(Clone, Copy, PartialEq, Eq, Structural)]
 pub enum WindowType { Fixed, SlidingLog, SlidingCounter }
 pub struct FixedWindowState { pub limit_for_period: usize, pub refresh_period: Duration, pub timeout_duration: Duration, pub available_permits: usize, pub period_start: Instant }
 pub struct SlidingLogState { pub limit_for_period: usize, pub window_duration: Duration, pub timeout_duration: Duration, pub request_log: VecDeque<Instant> }
@@ -237,6 +243,22 @@ impl RateLimiterStateInner {
     pub open spec fn timeout(&self) -> Duration {
         match self { RateLimiterStateInner::Fixed(s) => s.timeout_duration, RateLimiterStateInner::SlidingLog(s) => s.timeout_duration, RateLimiterStateInner::SlidingCounter(s) => s.timeout_duration }
     }
+    pub open spec fn kind(&self) -> WindowType {
+        match self { RateLimiterStateInner::Fixed(s) => WindowType::Fixed, RateLimiterStateInner::SlidingLog(s) => WindowType::SlidingLog, RateLimiterStateInner::SlidingCounter(s) => WindowType::SlidingCounter }
+    }
+    pub open spec fn limit(&self) -> usize {
+        match self { RateLimiterStateInner::Fixed(s) => s.limit_for_period, RateLimiterStateInner::SlidingLog(s) => s.limit_for_period, RateLimiterStateInner::SlidingCounter(s) => s.limit_for_period }
+    }
+    pub open spec fn period(&self) -> Duration {
+        match self { RateLimiterStateInner::Fixed(s) => s.refresh_period, RateLimiterStateInner::SlidingLog(s) => s.window_duration, RateLimiterStateInner::SlidingCounter(s) => s.bucket_duration }
+    }
+    pub fn new(window_type: WindowType, limit_for_period: usize, refresh_period: Duration, timeout_duration: Duration, clk: &mut Clock) -> (r: Self)
+        requires limit_for_period >= 1, refresh_period.nanos > 0,
+        ensures
+            r.wf(*final(clk)) && r.wf_adm(AdmLog { adm: Seq::empty() }, *final(clk)),   // #starts_well_formed_with_no_admissions [C02]
+            r.kind() == window_type && r.limit() == limit_for_period && r.period() == refresh_period && r.timeout() == timeout_duration,   // #window_state_takes_exactly_the_configured_algorithm_limit_period_and_timeout [C02,C15]
+    //@body RateLimiterStateInner::new
+
     pub fn try_acquire<Req, Res, E>(&mut self, clk: &mut Clock, Tracked(tr): Tracked<&mut Trace<Req, Res, E>>, Tracked(gh): Tracked<&mut AdmLog>) -> (r: AcquireResult)
         requires old(self).wf(*old(clk)), old(self).wf_adm(*old(gh), *old(clk)),
         ensures
@@ -253,6 +275,13 @@ impl SharedRateLimiter {
         ensures r.state == self.state,   // #clones_share_the_window_state [C02]
     //@derive_clone SharedRateLimiter
 
+    pub fn new(window_type: WindowType, limit_for_period: usize, refresh_period: Duration, timeout_duration: Duration, clk: &mut Clock) -> (r: Self)
+        requires limit_for_period >= 1, refresh_period.nanos > 0,
+        ensures
+            r.state.init@.wf(*final(clk)) && r.state.init@.wf_adm(AdmLog { adm: Seq::empty() }, *final(clk)),   // #starts_well_formed_with_no_admissions [C02]
+            r.state.init@.kind() == window_type && r.state.init@.limit() == limit_for_period && r.state.init@.period() == refresh_period && r.state.timeout@ == timeout_duration,   // #shared_state_is_built_from_exactly_the_given_parameters [C02,C15]
+    //@body SharedRateLimiter::new
+
     pub fn acquire<Req, Res, E>(&self, clk: &mut Clock, Tracked(tr): Tracked<&mut Trace<Req, Res, E>>, Tracked(gh): Tracked<&mut AdmLog>) -> (r: Result<Duration, ()>)
         requires old(tr).permits == 0 && old(tr).unguarded == 0 && old(tr).slept == 0,
         ensures
@@ -265,6 +294,14 @@ impl SharedRateLimiter {
 }
 
 impl<Req, Res, E> RateLimiter<Req, Res, E> {
+    pub fn new(inner: Inner<Req, Res, E>, config: Arc<RateLimiterConfig>, clk: &mut Clock) -> (r: Self)
+        requires config.limit_for_period >= 1, config.refresh_period.nanos > 0,
+        ensures
+            r.limiter.state.init@.kind() == config.window_type && r.limiter.state.init@.limit() == config.limit_for_period
+                && r.limiter.state.init@.period() == config.refresh_period && r.limiter.state.timeout@ == config.timeout_duration,   // #limiter_is_built_from_exactly_the_configuration [C02,C15]
+            r.config == config && r.inner == inner,   // #keeps_inner_and_configuration [C20]
+    //@body RateLimiter::new file=lib
+
     pub fn clone(&self) -> (r: Self)
         ensures r.limiter.state == self.limiter.state && r.config == self.config,   // #clones_share_the_limiter [C02]
     //@body RateLimiter::clone@Clone file=lib
